@@ -71,7 +71,8 @@ Definition expected_separators : list (bytes * bytes) :=
 
 Definition expected_dumpto : list bytes :=
   [ bs "len(p) == 0 || output == nil";
-    bs "d.Async() && atomic.LoadInt32(&d.running) == 1" ].
+    bs "d.Async()";
+    bs "atomic.LoadInt32(&d.running) == 1 && !d.stopped" ].
 
 (* every *bufio.Writer assertion that decides a Flush (before waiting for 100-continue,
    FlushHeaders, FlushAfterChunkWriter) is made on the raw writer *)
